@@ -1,11 +1,13 @@
 (* C08 — SCTE-35 decoding reports exactly the encoded splice_info_section fields.
-   Statements only; proofs in Proofs/ScteDecode.v.  Vocabulary:
+   Statements only; proofs in Proofs/ScteDecode.v and Proofs/ScteReject.v.  Vocabulary:
    - Spec/Scte35Spec.v: logical `splice_info`, `ser_splice_info` (SCTE 35 section 9 syntax), `wf_splice_info` (field ranges);
    - Proofs/ScteExpected.v: `supported` (wf, table_id 0xFC, clear, splice_null / time_signal with time /
-     splice_insert, pointer_field < 255) and `expected s`, the decoder's struct for s — every getter of the
+     splice_insert, pointer_field < 255) and `expected s`, the decoder's struct for s: every getter of the
      Go API is a field (or a two-line function, ScteEnc.get_upid/get_mid) of that struct, see Exec/ScteExec.v view_scte;
-   - Model/Scte.v: `new_scte35`, the model of scte35.NewSCTE35 (repaired code for F8 and the two loops). *)
-From Gots Require Import Base.Prelude Model.Pts Model.Scte Spec.Scte35Spec Proofs.ScteExpected Proofs.ScteDecode.
+   - Model/Scte.v: `new_scte35`, the model of scte35.NewSCTE35 (repaired code for F8 and the two loops);
+   - Proofs/ScteDecode.v: `wf_fixed` = the field ranges of the fixed part only (used by the rejections, which
+     must not assume a well-formed command / descriptor list). *)
+From Gots Require Import Base.Prelude Model.Pts Model.Scte Spec.Scte35Spec Proofs.ScteExpected Proofs.ScteDecode Proofs.ScteReject.
 Import Scte Scte35Spec.
 Local Open Scope N_scope.
 
@@ -16,3 +18,79 @@ Local Open Scope N_scope.
 Theorem C08_decode_ser : forall s, supported s -> new_scte35 (ser_splice_info s) = Ok (expected s).
 Proof. exact decode_ser. Qed.
 Print Assumptions C08_decode_ser.
+
+(* PTS() = (pts_time + pts_adjustment) mod 2^33 whenever the command carries a time; HasPTS() is then true
+   and the command's own PTS() is the unadjusted pts_time *)
+Theorem C08_signal_pts : forall s t sc, supported s -> cmd_time (si_cmd s) = Some t ->
+  new_scte35 (ser_splice_info s) = Ok sc ->
+  s_pts sc = (t + si_pts_adj s) mod 8589934592 /\ cmd_has_pts (s_cmd sc) = true /\ cmd_pts (s_cmd sc) = t.
+Proof. exact signal_pts. Qed.
+Print Assumptions C08_signal_pts.
+
+(* every decoded descriptor refers back to its enclosing signal (pointer identity rendered as object id;
+   goexec checks d.SCTE35() == s on the real objects) *)
+Theorem C08_desc_backref : forall s sc, supported s -> new_scte35 (ser_splice_info s) = Ok sc ->
+  Forall (fun d => d_owner d = Some (s_id sc)) (s_descs sc).
+Proof. exact desc_backref. Qed.
+Print Assumptions C08_desc_backref.
+
+(* the four rejections, each with its error *)
+Theorem C08_reject_table_id : forall s, len (si_pointer s) < 255 -> si_table_id s <> 252 ->
+  new_scte35 (ser_splice_info s) = Err E.UnknownTableID.
+Proof. exact reject_table_id. Qed.
+Print Assumptions C08_reject_table_id.
+
+Theorem C08_reject_encrypted : forall s, len (si_pointer s) < 255 -> si_table_id s = 252 -> si_encrypted s = true ->
+  si_enc_alg s < 64 -> si_pts_adj s < 8589934592 ->
+  new_scte35 (ser_splice_info s) = Err E.SCTE35EncryptionUnsupported.
+Proof. exact reject_encrypted. Qed.
+Print Assumptions C08_reject_encrypted.
+
+Theorem C08_reject_command : forall s ty body, wf_fixed s -> si_table_id s = 252 -> si_encrypted s = false ->
+  si_cmd s = OtherCmd ty body -> ty <> 0 -> ty <> 5 -> ty <> 6 ->
+  new_scte35 (ser_splice_info s) = Err E.SCTE35UnsupportedSpliceCommand.
+Proof. exact reject_command. Qed.
+Print Assumptions C08_reject_command.
+
+Theorem C08_reject_identifier : forall s ds i0 i1 i2 i3 body more,
+  wf_fixed s -> si_table_id s = 252 -> si_encrypted s = false ->
+  wf_command (si_cmd s) -> supported_cmd (si_cmd s) ->
+  si_descs s = ds ++ Foreign 2 (i0 :: i1 :: i2 :: i3 :: body) :: more ->
+  Forall wf_descriptor ds -> be32 i0 i1 i2 i3 <> CUEI -> len (ser_descriptors (si_descs s)) < 65536 ->
+  new_scte35 (ser_splice_info s) = Err E.SCTE35InvalidDescriptorID.
+Proof. exact reject_identifier. Qed.
+Print Assumptions C08_reject_identifier.
+
+(* why `supported` demands a time: the two time-less forms are refused as unsupported commands *)
+Theorem C08_reject_time_signal_without_time : forall s, wf_fixed s -> si_table_id s = 252 -> si_encrypted s = false ->
+  si_cmd s = TimeSignal None -> new_scte35 (ser_splice_info s) = Err E.SCTE35UnsupportedSpliceCommand.
+Proof. exact reject_time_signal_no_time. Qed.
+Print Assumptions C08_reject_time_signal_without_time.
+
+Theorem C08_reject_insert_without_time : forall s eid b, wf_fixed s -> si_table_id s = 252 -> si_encrypted s = false ->
+  si_cmd s = Insert eid (Some b) -> eid < T32 -> ib_mode b = ProgTimed None ->
+  new_scte35 (ser_splice_info s) = Err E.SCTE35UnsupportedSpliceCommand.
+Proof. exact reject_insert_no_time. Qed.
+Print Assumptions C08_reject_insert_without_time.
+
+(* ---- non-vacuity: a component-mode splice_insert with break_duration, pts_adjustment, pointer_field 2,
+   a segmentation descriptor with components (bit 32 set), 40-bit duration, MID list and sub-segment fields,
+   a cancelled descriptor and a foreign descriptor ---- *)
+Definition ex_seg : descriptor :=
+  Seg 4294967295 (Some (mksb (Some [(7, 8589934591); (8, 4294967296)]) (Some 1099511627775)
+                             (Some (true, false, true, 2)) (Multi [(9, [66; 76]); (14, [])]) 52 3 4 (Some (1, 2)))).
+Definition ex_signal : splice_info :=
+  mksi [255; 255] 252 false false 3 0 false 0 8589934591 255 2748 false
+       (Insert 305419896 (Some (mkib true (CompTimed [(1, Some 8589934591); (2, None)]) (Some (true, 8589934591)) 65535 1 2)))
+       [Foreign 1 [67; 85; 69; 73; 0]; ex_seg; Seg 5 None] [0; 0] 3735928559.
+Example C08_example_supported : supported ex_signal.
+Proof.
+  unfold supported, wf_splice_info, ex_signal, ex_seg. cbn.
+  repeat (split || constructor); cbn; try lia; try discriminate; auto.
+Qed.
+Example C08_example_decodes :
+  exists sc, new_scte35 (ser_splice_info ex_signal) = Ok sc /\ length (s_descs sc) = 2%nat /\
+             s_other sc = [1; 5; 67; 85; 69; 73; 0] /\ s_pts sc = 8589934591.
+Proof.
+  exists (expected ex_signal). split; [apply decode_ser, C08_example_supported|]. vm_compute. repeat split; reflexivity.
+Qed.
